@@ -747,7 +747,8 @@ def formula_grammar(table):
     implicit_separator = separator | space
     composite << group + ZeroOrMore(implicit_separator + group)
 
-    density = Literal('@').suppress() + count + Optional(Regex("[ni]"), default='i')
+    density = (Literal('@').suppress() + ~White() + (fract|whole)
+               + Optional(Regex("[ni]"), default='i'))
     compound = composite + Optional(density, default=None)
     def convert_compound(string, location, tokens):
         """convert material @ density"""
